@@ -76,6 +76,18 @@ type Cache[K interface{ String() string }, V any] interface {
 
 type UserStore = Store[Key, int]
 
+// embedding an instantiation of a generic interface of ANOTHER package: the outer
+// type parameter T is not the embedded interface's T
+type KV[K any, T any] interface {
+	alpha.Getter[K]
+	Put(k K, v T) (T, error)
+}
+
+type IntGetter interface {
+	alpha.Getter[int]
+	alpha.I
+}
+
 type NamedStore Store[Key, string]
 
 type Pair[A any, B any] interface {
@@ -124,7 +136,7 @@ type Sleeper interface {
 
 func CorpusRaw(seed int64, tier string) []*Case {
 	src := &SrcPkg{Name: "rawsrc", Pkgs: []Pkg{dep("alpha", "x", "alpha")}, Raw: map[string]string{"raw.go": rawMain}}
-	ifaces := []string{"Base", "Embeds", "IntStore", "KeyStore", "ReaderAlias", "DepAlias", "Store", "Cache", "UserStore", "NamedStore", "Pair", "Results", "Literals", "Unsafe"}
+	ifaces := []string{"Base", "Embeds", "IntStore", "KeyStore", "ReaderAlias", "DepAlias", "Store", "Cache", "UserStore", "NamedStore", "Pair", "Results", "Literals", "Unsafe", "KV", "IntGetter"}
 	var cases []*Case
 	judge := []string{"C01", "C02", "C08", "C09", "C10", "C11", "C12", "C14", "C16", "C19", "C20"}
 	for i, n := range ifaces {
